@@ -29,7 +29,9 @@ RULE = ('Hypothesis: CamxSpec (uamiv[AVERAGE EMISSIONS AIRQUALITY INSTANT] '
         'ioapi_base.from_arrays (uamiv), each with or without an ETFLAG '
         'variable and with float32 / float64 / big-endian float32 / int32 '
         'variables holding values exact in float32 (read back must equal '
-        'their float32 conversion), or the memmap reader on the '
+        'their float32 conversion; one case in four with masked cells, '
+        'which must read back as the variable\'s fill value), or the '
+        'memmap reader on the '
         'reference-encoded file.  '
         'Oracle: g = read(write(f)) with the memmap reader (rows/cols given '
         'for met formats): dimension lengths equal; every species/field '
@@ -76,6 +78,10 @@ def cases(draw, tier='quick'):
                           draw(st.booleans()))
     if route != 'refread':
         draw(C.input_dtypes(spec))
+        draw(C.input_masks(spec))
+        if spec.get('mask') and spec['mask']['kind'] == 'build':
+            route = spec['route'] = 'pnc'
+            spec['etflag'] = bool(spec['etflag'] and fmt == 'uamiv')
     if fmt == 'wind' and route != 'refread' and spec['lstagger'] is None:
         spec['lstagger'] = draw(st.sampled_from([-1, 0, 1]))
     return spec
@@ -91,6 +97,8 @@ def describe(r, spec, m):
             ('+etflag' if spec.get('etflag') else ''))
     if spec['route'] != 'refread':
         r.label('vdtype:' + spec.get('vdtype', 'f4'))
+        if spec.get('mask'):
+            r.label('masked-input:' + spec['mask']['kind'])
     if fmt == 'uamiv':
         r.label('name:' + spec['name'], 'iproj:%d' % spec['proj']['iproj'])
     nt = spec.get('nsteps', 1)
@@ -348,3 +356,11 @@ known.register('C08-wind-nostagger-write', lambda spec, f: (
     spec['fmt'] == 'wind' and spec.get('lstagger') is None and
     spec.get('route') == 'refread' and f.clause == 'write-raises' and
     f.where == 'AttributeError@camxfiles/wind/Write.py:ncf2wind'))
+MASK_RAISERS = ('temperature', 'height_pressure', 'wind', 'cloud_rain')
+known.register('C08-met-writers-masked-tofile', lambda spec, f: (
+    bool(spec.get('mask')) and spec['fmt'] in MASK_RAISERS and
+    f.clause == 'write-raises' and f.where.startswith(
+        'NotImplementedError@camxfiles/%s/Write.py' % spec['fmt'])))
+known.register('C08-landuse-masked-stale', lambda spec, f: (
+    bool(spec.get('mask')) and spec['fmt'] == 'landuse' and
+    f.clause == 'rt-values'))
